@@ -31,8 +31,10 @@ STUBS = ["none (reference evaluator is the oracle)"]
 
 BIN = ["*", "/", "%", "+", "-", "<<", ">>", "&", "^", "|"]
 PREC = {"|": 0, "^": 1, "&": 2, "<<": 3, ">>": 3, "+": 4, "-": 4, "*": 5, "/": 5, "%": 5}
-IDENTS = ["a", "b", "n", "x1", "_k", "len", "N", "u8", "ul", "Ab_9", "l", "U", "u"]
-SIZEOF_TYPES = {"uint16": 2, "T3": 3, "uint64": 8, "DWORD": 4, "BYTE": 1, "QWORD": 8, "T3alias": 3, "W2": 2, "int24": 3}
+# some identifiers are ALSO type names (u8 is a built-in synonym, T3 and W2 are user types): sizeof(name) means the type even
+# when a constant or a context value of that spelling exists, a bare name means the value
+IDENTS = ["a", "b", "n", "x1", "_k", "len", "N", "u8", "ul", "Ab_9", "l", "U", "u", "T3", "W2"]
+SIZEOF_TYPES = {"uint16": 2, "T3": 3, "uint64": 8, "DWORD": 4, "BYTE": 1, "QWORD": 8, "T3alias": 3, "W2": 2, "int24": 3, "u8": 8}
 BIG = 1 << 512
 
 
